@@ -15,3 +15,4 @@ open O2P.Gate
 #print axioms or_test_spec
 #print axioms or_inference_leaves_sound
 #print axioms post_flat_or_sound
+#print axioms post_flat_or_sound_proj
